@@ -11,6 +11,9 @@ def register(prop, J):
          jobs=[
              J("determinism-v2", "v2", "codecprops", "^TestC09", checks=(6000, 1800000), shards=(4, 16), prepare="prepare_codec",
                extra_pkgs=["dyn", "gendrv"], timeout=(900, 3000)),
+             # (appended) "requests are reproducible": generated calls made three times, batch keys supplied in another order
+             J("requests-v2", "v2", "resprops", "^TestC09", checks=(3000, 600000), shards=(2, 16), prepare="prepare_resources",
+               extra_pkgs=["dyn", "gendrv"], timeout=(900, 3000)),
              # (no root-module job: the property is stated for the v2 module only, so an alarm about the root module's
              #  serialisation would be an alarm on code where the property holds; the harness does run for v1 - it was used to
              #  see that the root module happens to satisfy the same laws - with
@@ -20,6 +23,7 @@ def register(prop, J):
                     "iteration per range statement) and fresh processes (different map hash seeds), plus canonical order of object "
                     "keys, query parameters and batch ids checked on the reference-parsed output",
          level_note="the property is stated for v2 and only v2 is judged; hand-built RawRecords (typed maps at any depth) are "
-                    "included; complex-key batch id order is covered by the resource-level harness (C16)",
+                    "included; request level (job requests-v2): the same generated call made three times, its batch keys supplied in another order, must "
+                    "send byte-identical requests or none at all (key multisets of C16, incl. complex keys equal up to $params)",
          technique="property-based testing (rapid), metamorphic byte-identity relation, multi-process digest comparison",
          design_ref="2/C09")
